@@ -7,6 +7,7 @@ import (
 	"time"
 
 	"github.com/openziti/storage/ast"
+	"github.com/openziti/storage/zitiql"
 	"go.etcd.io/bbolt"
 	"pgregory.net/rapid"
 
@@ -155,6 +156,9 @@ type c12Case struct {
 	// store variant: atoms are real comparisons over a dataset and the re-spelling must not change QueryIds
 	Data  *kit.Dataset `json:"data,omitempty"`
 	Atoms []*kit.Expr  `json:"atoms,omitempty"`
+	// DiagnosticParseFirst: the text is first put through the parser's diagnostic entry point (zitiql.ParseWithDebug),
+	// as somebody looking at what the parser makes of a filter would do; the ordinary parses come afterwards
+	DiagnosticParseFirst bool `json:"diagnosticParseFirst,omitempty"`
 }
 
 func spellChoice(c *c12Case) kit.SpellChoice {
@@ -213,6 +217,10 @@ func runC12(c c12Case) kit.Result {
 	text := kit.Spell(c.Skel.items(symAtom, c.Full, ""), spellChoice(&c))
 	text = pad(&c, text)
 
+	if c.DiagnosticParseFirst {
+		_ = zitiql.ParseWithDebug(text, ast.NewListener(), true)
+		res.Classes = append(res.Classes, "after-diagnostic-parse")
+	}
 	q, err := ast.Parse(boolSyms{}, text)
 	if err != nil {
 		res.Err = fmt.Errorf("skeleton %q (spelled %q) rejected: %v", canonical, text, err)
@@ -516,10 +524,16 @@ func genC12(t *rapid.T) c12Case {
 	}
 	if rapid.IntRange(0, 3).Draw(t, "storeVariant") == 0 && n <= 5 {
 		c.Data = kit.GenDataset(t, 6, 2)
+		depth, opts := 0, &kit.GenOpts{NoSubQuery: true}
+		if rapid.IntRange(0, 2).Draw(t, "subQueryAtoms") == 0 {
+			// the atoms are mostly sub-query set functions over one and the same link set, each with a predicate of its own
+			depth, opts = 1, &kit.GenOpts{SelfLinks: true, Boost: map[string]int{"subcount": 60, "subempty": 60}}
+		}
 		for i := 0; i < n; i++ {
-			c.Atoms = append(c.Atoms, kit.GenAtom(t, fmt.Sprintf("atom%d", i), "people", 0, &kit.GenOpts{NoSubQuery: true}))
+			c.Atoms = append(c.Atoms, kit.GenAtom(t, fmt.Sprintf("atom%d", i), "people", depth, opts))
 		}
 	}
+	c.DiagnosticParseFirst = rapid.IntRange(0, 7).Draw(t, "diagnosticParseFirst") == 0
 	return c
 }
 
